@@ -17,7 +17,7 @@ Ties
     specification functions; `function.as_coo/as_csr` through `function.eval` on small FEM integrals and through the
     consumers `matrix.assemble_csr`, `solver.System` (block jacobian) and `Topology.project`.
 """
-import base64, pickle, collections, itertools, json, numpy
+import os, base64, pickle, collections, itertools, json, numpy
 from fractions import Fraction
 from nutils import evaluable as ev, types
 from . import genexpr, ser, shrink, exprcheck as X
@@ -121,6 +121,14 @@ def random_dag(rng, maxdepth):
     dtype = rng.choice([float, float, float, int, int])
     allow = None if rng.random() < .25 else STRUCTURAL
     return genexpr.random_case(rng, depth=depth, dtype=dtype, allow=allow)
+
+
+def sparse_dag(rng, maxdepth):
+    """raw trees made only of the classes that have their own `_assparse` (every override is reached with sparse children)"""
+    g = genexpr.Gen(rng, allow=['InsertAxis', 'Transpose', 'Add', 'Multiply', 'Sum', 'Inflate', 'Diagonalize', 'Ravel', 'Unravel', 'Unravel0', 'LoopSum', 'LoopConcatenate'], share=.15)
+    nd = rng.choice([1, 2, 2, 3, 3])
+    shape = tuple(rng.choice([1, 2, 2, 3, 3, 4, 0]) for _ in range(nd))
+    return g.array(rng.choice([float, float, int]), shape, rng.choice(range(2, maxdepth+2))), g
 
 
 def fem_case(rng):
@@ -256,16 +264,20 @@ def signature(mode, clause, e, args, tol):
     return '%s-wrong:%s:%s' % ({'coo': 'assparse', 'raw': 'assparse', 'csr': 'as_csr'}[mode], clause, shrink.skeleton(small)), small, sargs
 
 
-def v_stream(c, ncases, maxdepth):
-    cases, reqs = [], []
+def v_stream(c, ncases, maxdepth, npy=0):
+    cases, reqs, pyonly = [], [], []
     out = collections.Counter()
     hits = collections.Counter()
-    for i in range(ncases):
+    for i in range(ncases + npy):
+        lean = i < ncases
         try:
             if i % 3 == 2:
                 e, args, tag = fem_case(c.rng)
-            else:
+            elif lean:
                 e, g = random_dag(c.rng, maxdepth); args = g.args; tag = 'dag'
+                for k, v in g.hits.items(): hits['gen:' + k] += v
+            else:
+                e, g = sparse_dag(c.rng, maxdepth); args = g.args; tag = 'sparse-dag'
                 for k, v in g.hits.items(): hits['gen:' + k] += v
         except Exception as ex:
             out['generator-exception:' + type(ex).__name__] += 1; continue
@@ -276,19 +288,26 @@ def v_stream(c, ncases, maxdepth):
             continue
         exact = is_exact(e)
         tol = 0. if exact else 1e-9
-        modes = ['coo'] + (['csr'] if e.ndim == 2 else []) + (['raw'] if c.rng.random() < .6 else [])
+        modes = ['coo'] + (['csr'] if e.ndim == 2 else []) + (['raw'] if not lean or c.rng.random() < .6 else [])
         for mode in modes:
             kx, ext = extract(e, mode)
             if kx != 'ok':
                 if mode != 'raw' and kx == 'exception' and 'caught in a loop' in str(ext) or kx == 'hang':
                     out['%s:simplify-nonterminating(C01)' % mode] += 1; continue
-                out['%s:extract-%s' % (mode, kx)] += 1
+                out['%s:extract-%s:%s' % (mode, kx, type(ext).__name__)] += 1
+                if mode == 'raw':
+                    # `_assparse` implementations rely on invariants of simplified trees (e.g. Multiply._assparse assumes that no axis is
+                    # inserted in all factors); as_coo / as_csr always simplify first: an exception on a raw tree is outside the property
+                    continue
                 c.case((e.__nutils_hash__, mode))
                 c.failing_input('sparse-extraction-raises:%s:%s:%s' % (mode, type(ext).__name__, shrink.skeleton(e)),
                                 'sparse extraction (%s) raises %s: %s while the dense expression evaluates' % (mode, type(ext).__name__, str(ext)[:120]),
                                 dict(mode=mode, expr=X.describe(e, args), pickled=pack(e, args)))
                 continue
             kr, parts = real_parts(mode, ext, args)
+            if not lean:
+                pyonly.append(dict(e=e, args=args, tag=tag, mode=mode, ext=ext, kr=kr, parts=parts, tol=tol, dense0=v0))
+                continue
             roots, spec = roots_of(mode, ext, e)
             nroots = len(roots)
             float_args = {k: v for k, v in args.items() if numpy.asarray(v).dtype.kind == 'f'}
@@ -304,20 +323,24 @@ def v_stream(c, ncases, maxdepth):
             reqs += [json.dumps(j1, separators=(',', ':')), json.dumps(j2, separators=(',', ':'))]
     c.log('V: %d requests for the Lean evaluator' % len(reqs))
     ans = []
-    for a in c.model(reqs):
+    for a in (yield reqs):
         if a.startswith('bad-request'):
             raise Infra('C05 driver rejected a request: ' + a[:300])
         ans.append(json.loads(a))
     nsym = nconc = nreal = nspec = nspec_bad = 0
-    for case, a1, a2 in zip(cases, ans[0::2], ans[1::2]):
+    none = dict(verdict='not-asked', nnz=-1)
+    for case, a1, a2 in list(zip(cases, ans[0::2], ans[1::2])) + [(case, none, none) for case in pyonly]:
         e, args, mode, parts, tol = case['e'], case['args'], case['mode'], case['parts'], case['tol']
         key = (e.__nutils_hash__, mode)
         nnz = a1.get('nnz', 0)
+        if nnz < 0:
+            nnz = len(parts[1]) if case['kr'] == 'ok' else 0
         c.case(key, nontrivial=e.ndim > 0 and nnz > 0)
         out['%s:lean-concrete:%s' % (mode, a1['verdict'].split(':')[0] if a1['verdict'].startswith('error') else a1['verdict'])] += 1
         out['%s:lean-symbolic:%s' % (mode, a2['verdict'].split(':')[0] if a2['verdict'].startswith('error') else a2['verdict'])] += 1
         if a1['verdict'].startswith('error:unsupported'): out['unsupported:' + a1['verdict'].split(':', 2)[2]] += 1
         out['%s:ndim=%d' % (mode, e.ndim)] += 1
+        if mode == 'coo' and a1.get('cmp') == ['differ']: out['coo:simplified-differs-from-original-at-sample-point(C01 domain, not judged here)'] += 1
         if nnz == 0: out[mode + ':nnz=0'] += 1
         replay = dict(mode=mode, tag=case['tag'], expr=X.describe(e, args), pickled=pack(e, args), lean_concrete=a1['verdict'], lean_symbolic=a2['verdict'])
         # ---- (1) the real compiled code on the real sparse trees, exact recomputation oracle
@@ -327,7 +350,10 @@ def v_stream(c, ncases, maxdepth):
             nreal += 1; c.traces += 1
             out['%s:real:%s' % (mode, real or 'ok')] += 1
             if real is not None:
-                sig, small, sargs = signature(mode, real, e, args, tol)
+                if sum(1 for v in c.violations if v[2].startswith(('assparse-wrong', 'as_csr-wrong'))) < 4:
+                    sig, small, sargs = signature(mode, real, e, args, tol)
+                else:   # enough shrunk root-cause signatures: do not spend the budget on delta debugging
+                    sig, small, sargs = '%s-wrong:%s' % ('as_csr' if mode == 'csr' else 'assparse', real), e, args
                 c.failing_input(sig, 'the evaluated sparse data (%s) do not denote the dense array: clause %s fails' % (mode, real),
                                 dict(replay, expr=X.describe(small, sargs), pickled=pack(small, sargs), original=X.describe(e, args), clause=real,
                                      real=[numpy.asarray(p).tolist() if not isinstance(p, tuple) else [numpy.asarray(q).tolist() for q in p] for p in parts]))
@@ -359,6 +385,8 @@ def v_stream(c, ncases, maxdepth):
             nsym += 1; out[mode + ':verdict:proved-symbolically'] += 1
         elif a1['verdict'] == 'ok':
             nconc += 1; out[mode + ':verdict:exact-at-sample-point'] += 1
+        elif a1['verdict'] == 'not-asked':
+            pass
         elif a1['verdict'].startswith('fail:'):
             # candidate: Lean rejects at the sample point but the real evaluation passed the exact oracle (or could not run)
             if real is None and case['kr'] == 'ok' and finite(parts) and tol == 0:
@@ -381,6 +409,510 @@ def v_stream(c, ncases, maxdepth):
                  '%d real evaluations of sparse tuples checked by exact recomputation' % nreal)
 
 
+# ---------------------------------------------------------------------------------------------------------------------
+# (M) streams on integer data
+
+def ints(a):
+    return ' '.join(str(int(x)) for x in a)
+
+
+def lists(l):
+    return ';'.join(ints(t) for t in l)
+
+
+def gen_entries(rng, maxdim=3):
+    nd = rng.choice([1, 1, 2, 2, 2, 3][:2 + 2 * maxdim])
+    shape = [rng.choice([1, 2, 3, 4]) for _ in range(nd)]
+    m = rng.choice([0, 1, 2, 3, 5, 8])
+    tuples = [[rng.randrange(n) for n in shape] for _ in range(m)]
+    if m >= 2 and rng.random() < .6:   # force duplicates
+        for _ in range(rng.randint(1, m // 2)):
+            tuples[rng.randrange(m)] = list(tuples[rng.randrange(m)])
+    values = [rng.choice([0, 1, -1, 2, 3, -5, 7]) for _ in range(m)]
+    return shape, tuples, values
+
+
+def py_merge(shape, tuples, values):
+    acc = {}
+    for t, v in zip(tuples, values):
+        acc[tuple(t)] = acc.get(tuple(t), 0) + v
+    keys = sorted(acc)
+    return [list(k) for k in keys], [acc[k] for k in keys]
+
+
+def py_dense(shape, tuples, values):
+    d = numpy.zeros(shape, dtype=int)
+    for t, v in zip(tuples, values):
+        d[tuple(t)] += v
+    return d
+
+
+def m_compress(c, n):
+    from nutils import numeric
+    cases = [([], 0), ([], 3), ([0, 0, 2], 4), ([1, 0], 2), ([-1, 0], 2), ([0, 3], 3), ([2], 3), ([0], 1), ([0, 1, 2], 3), ([3, 3, 3], 4)]
+    for _ in range(n):
+        k = c.rng.randint(0, 6)
+        idx = sorted(c.rng.randint(0, max(0, k-1)) for _ in range(c.rng.randint(0, 7))) if k else []
+        r = c.rng.random()
+        if idx and r < .12: idx[c.rng.randrange(len(idx))] = k + c.rng.randint(0, 1)
+        elif idx and r < .24: idx[c.rng.randrange(len(idx))] = -c.rng.randint(1, 2)
+        elif len(idx) > 1 and r < .4: c.rng.shuffle(idx)
+        cases.append((idx, k))
+    ans = yield ['compress|%s|%d' % (ints(i), k) for i, k in cases]
+    nbad = 0
+    for (idx, k), a in zip(cases, ans):
+        try:
+            r = 'ok|' + ints(numeric.compress_indices(numpy.array(idx, dtype=int), k))
+        except ValueError as e:
+            r = 'err|' + ('bounds' if 'bounds' in str(e) else 'monotone')
+        except Exception as e:
+            r = 'exc|' + type(e).__name__
+        c.case(('compress', tuple(idx), k), nontrivial=len(idx) > 0); c.count('M:compress:' + r.split('|')[0])
+        pre = sorted(idx) == idx and all(0 <= i < k for i in idx)
+        replay = dict(op='compress_indices', indices=idx, length=k, real=r, model=a)
+        f = a.split('|')
+        # specification oracle: succeeds iff precondition, then equals searchsorted (exact ints)
+        want = 'ok|' + ints([sum(1 for x in idx if x < i) for i in range(k+1)]) if pre else None
+        if (r.startswith('ok') and r != want) or (pre and not r.startswith('ok')):
+            c.failing_input('compress_indices-wrong', 'compress_indices does not return the searchsorted row pointers of a monotone in-range vector, or accepts a vector outside its precondition', replay); nbad += 1; continue
+        if f[:2] != r.split('|')[:2] or (f[0] == 'ok' and f[2] != 'spec-agrees') or (f[-1] == 'pre') != pre or (f[0] == 'ok') != pre:
+            nbad += 1
+            c.broken_no_input('corr:compress_indices', 'model and implementation (or model and theorem compress_indices_spec) disagree', replay)
+        c.traces += 1
+    c.obligation('corr:compress_indices', nbad == 0, 'correspondence', '%d vectors (empty, repeated, out of range, unsorted)' % len(cases))
+
+
+def m_accumulate(c, n):
+    from nutils import numeric
+    cases = []
+    for _ in range(n):
+        shape, tuples, values = gen_entries(c.rng)
+        if c.rng.random() < .1: shape, tuples = [], [[] for _ in tuples]
+        cases.append((shape, tuples, values, c.rng.choice([float, int])))
+    ans = yield ['accumulate|%s|%s|%s' % (ints(s), lists(t) if s else ';'.join('' for _ in t), ints(v)) for s, t, v, _ in cases if s]
+    it = iter(ans)
+    nbad = 0
+    for shape, tuples, values, dtype in cases:
+        data = numpy.array(values, dtype=dtype)
+        index = [numpy.array([t[k] for t in tuples], dtype=int) for k in range(len(shape))]
+        want = py_dense(shape, tuples, values) if shape else numpy.array(sum(values))
+        try:
+            got = numeric.accumulate(data, index, tuple(shape))
+            ok = numpy.asarray(got).shape == want.shape and [frac(x) for x in numpy.asarray(got).reshape(-1)] == [frac(x) for x in want.reshape(-1)]
+            got_l = numpy.asarray(got).tolist()
+        except Exception as e:
+            ok, got_l = False, 'exception %s: %s' % (type(e).__name__, e)
+        c.case(('accumulate', tuple(shape), tuple(map(tuple, tuples)), tuple(values), dtype.__name__), nontrivial=len(values) > 0)
+        c.count('M:accumulate:%s:%dd' % (dtype.__name__, len(shape)))
+        replay = dict(op='accumulate', shape=shape, tuples=tuples, values=values, dtype=dtype.__name__, real=got_l, want=want.tolist())
+        a = next(it) if shape else None
+        if not ok:
+            c.failing_input('accumulate-wrong', 'numeric.accumulate differs from the additive scatter of the data', replay); nbad += 1; continue
+        if shape:
+            if a != ints(want.reshape(-1)):
+                nbad += 1; c.broken_no_input('corr:accumulate', 'Lean model `accumulate` differs from the exact recomputation', dict(replay, model=a))
+        c.traces += 1
+    c.obligation('corr:accumulate', nbad == 0, 'correspondence', '%d scatter-adds (float/bincount and int/add.at paths, 0-d, empty)' % len(cases))
+
+
+def m_unique(c, n):
+    cases = [[], [0], [3, 1, 3, 0, 1], [2, 2, 2], [5, 4, 3, 2, 1, 0]]
+    for _ in range(n):
+        m = c.rng.choice([0, 1, 2, 3, 5, 8, 12])
+        hi = c.rng.choice([1, 2, 4, 9])
+        cases.append([c.rng.randrange(hi) for _ in range(m)])
+    ans = yield ['unique|' + ints(f) for f in cases]
+    nbad = 0
+    for f, a in zip(cases, ans):
+        arr = ev.Constant(types.arraydata(numpy.array(f, dtype=int)))
+        k, val = X.guarded(lambda: ev.eval_once((*ev.unique(arr, return_inverse=True), ev.ArgSort(arr), ev.unique(arr, return_index=True)[1], ev.unique(arr)), _simplify=False, _optimize=False), 20) if f else ('ok', ([], [], [], [], []))
+        c.case(('unique', tuple(f)), nontrivial=len(set(f)) < len(f)); c.count('M:unique:%s' % ('dups' if len(set(f)) < len(f) else 'nodups'))
+        replay = dict(op='unique', array=f, model=a)
+        if k != 'ok':
+            c.failing_input('unique-raises', 'evaluable.unique raises %r' % val, replay); nbad += 1; continue
+        uniq, inverse, sorter, index, uniq2 = [[int(x) for x in numpy.asarray(v)] for v in val]
+        replay['real'] = dict(unique=uniq, inverse=inverse, sorter=sorter, index=index)
+        # specification: unique = sorted distinct, unique[inverse] = array, array[index] = unique, index = first occurrences, sorter = stable argsort
+        spec = (uniq == sorted(set(f)) and uniq2 == uniq and len(inverse) == len(f) and all(0 <= i < len(uniq) and uniq[i] == x for i, x in zip(inverse, f))
+                and index == [f.index(u) for u in uniq] and sorter == sorted(range(len(f)), key=lambda i: (f[i], i)))
+        if not spec:
+            c.failing_input('unique-wrong', 'evaluable.unique / ArgSort do not return the sorted distinct entries with a consistent inverse / first-occurrence index', replay); nbad += 1; continue
+        if a != '%s|%s|%s' % (ints(uniq), ints(inverse), ints(sorter)):
+            nbad += 1; c.broken_no_input('corr:unique', 'Lean model uniqueInv/argsortStable differs from the real unique pipeline', replay)
+        c.traces += 1
+    c.obligation('corr:unique(ArgSort,UniqueMask,Find,UniqueInverse)', nbad == 0, 'correspondence', '%d integer vectors' % len(cases))
+
+
+def scatter_expr(shape, tuples, values, dtype=float, name='v'):
+    """real expression whose `_assparse` chunk is exactly (tuples, values): Unravel^k(Inflate(values, flat, prod(shape)))"""
+    flat = [int(numpy.ravel_multi_index(t, shape)) if tuples else 0 for t in tuples]
+    # the values are an argument (not a constant) so that the simplifier inside as_csr cannot fold explicit zeros away
+    e = ev.Inflate(ev.Argument(name, (ev.constant(len(values)),), dtype), ev.Constant(types.arraydata(numpy.array(flat, dtype=int))), ev.constant(int(numpy.prod(shape))))
+    for k in range(len(shape) - 1):
+        e = ev.Unravel(e, ev.constant(shape[k]), ev.constant(int(numpy.prod(shape[k+1:]))))
+    return e
+
+
+def scatter_sum(rng, shape, tuples, values):
+    """the same entries split over 1..4 chunks of different lengths: Add(Add(chunk0, chunk1), ...)"""
+    cuts = sorted(rng.randint(0, len(values)) for _ in range(rng.choice([0, 0, 1, 2, 3])))
+    bounds = [0] + cuts + [len(values)]
+    e, args = None, {}
+    for k, (a, b) in enumerate(zip(bounds, bounds[1:])):
+        name = 'v%d' % k
+        part = scatter_expr(shape, tuples[a:b], values[a:b], name=name)
+        args[name] = numpy.array(values[a:b], dtype=float)
+        e = part if e is None else ev.Add(types.frozenmultiset([e, part]))
+    return e, args
+
+
+def m_assparse(c, n):
+    cases = [gen_entries(c.rng) for _ in range(n)]
+    reqs = []
+    for shape, tuples, values in cases:
+        reqs.append('assparse|%s|%s|%s' % (ints(shape), lists(tuples), ints(values)))
+        mt, mv = py_merge(shape, tuples, values)
+        reqs.append('coo|%s|%s|%s|%s' % (ints(shape), lists(mt), ints(mv), ints(py_dense(shape, tuples, values).reshape(-1))))
+        if len(shape) == 2:
+            reqs.append('ascsr|%d|%s' % (shape[0], lists(mt)))
+    it = iter((yield reqs))
+    nbad = 0
+    for shape, tuples, values in cases:
+        a = next(it); acoo = next(it); acsr = next(it) if len(shape) == 2 else None
+        mt, mv = py_merge(shape, tuples, values)
+        e, eargs = scatter_sum(c.rng, shape, tuples, values)
+        c.case(('assparse', tuple(shape), tuple(map(tuple, tuples)), tuple(values)), nontrivial=len(mt) < len(tuples)); c.count('M:assparse:%dd:%dchunks' % (len(shape), len(eargs)))
+        replay = dict(op='assparse', shape=shape, tuples=tuples, values=values, model=a, want=[mt, mv])
+        def run():
+            v, idx, sh = e.assparse
+            return ev.eval_once((v, tuple(idx)) + ((ev.as_csr(e),) if len(shape) == 2 else ()), arguments=eargs, _simplify=False, _optimize=False)
+        k, val = X.guarded(run, 20)
+        if k != 'ok':
+            c.failing_input('assparse-merge-raises', 'Array.assparse on a scatter expression raises %r' % val, replay); nbad += 1; continue
+        rv = [frac(x) for x in val[0]]; rt = [[int(i[j]) for i in val[1]] for j in range(len(val[0]))]
+        replay['real'] = [rt, [str(x) for x in rv]]
+        if rt != mt or rv != [Fraction(x) for x in mv]:
+            c.failing_input('assparse-merge-wrong', 'Array.assparse does not return the sorted unique index tuples with the summed values', replay); nbad += 1; continue
+        if a != '%s|%s' % (lists(mt), ints(mv)) or acoo != 'ok':
+            nbad += 1; c.broken_no_input('corr:assparse-merge', 'Lean model of the assparse merge (or the checker on its output) disagrees with the exact recomputation', dict(replay, checker=acoo))
+        if len(shape) == 2:
+            cv, crp, cci, cnc = val[2]
+            rowptr = [sum(1 for t in mt if t[0] < i) for i in range(shape[0]+1)]
+            if [int(x) for x in crp] != rowptr or [int(x) for x in cci] != [t[1] for t in mt] or int(cnc) != shape[1] or [frac(x) for x in cv] != rv:
+                c.failing_input('as_csr-wrong', 'evaluable.as_csr does not return the CSR form of the COO data', dict(replay, real_csr=[numpy.asarray(x).tolist() for x in val[2]])); nbad += 1; continue
+            if acsr != 'ok|%s|%s' % (ints(rowptr), ints(t[1] for t in mt)):
+                nbad += 1; c.broken_no_input('corr:as_csr', 'Lean model asCsr differs from the real as_csr', dict(replay, model_csr=acsr))
+        c.traces += 1
+    c.obligation('corr:assparse-merge+as_csr', nbad == 0, 'correspondence', '%d entry lists (duplicates, empty, 1-3 dims)' % len(cases))
+
+
+def m_chunks(c, n):
+    """per class: the REAL `_assparse` chunks of X(child), where the chunk of `child` is a known entry list, must accumulate
+    (exactly) to the NumPy meaning of X applied to the dense child (`chunks_denote`, one class at a time)"""
+    nbad = 0
+    yield []
+    for _ in range(n):
+        rng = c.rng
+        shape, tuples, values = gen_entries(rng)
+        nd = len(shape)
+        args = {'v': numpy.array(values, dtype=float)}
+        child = scatter_expr(shape, tuples, values)
+        dense = py_dense(shape, tuples, values).astype(float)
+        ops = ['Diagonalize', 'Transpose', 'InsertAxis', 'Inflate', 'Sum', 'Add', 'Multiply', 'Multiply3', 'Unravel'] + (['Ravel', 'Inflate2', 'Transpose'] if nd >= 2 else [])
+        op = rng.choice(ops)
+        if op == 'Ravel':
+            X = ev.Ravel(child); ref = dense.reshape(tuple(shape[:-2]) + (shape[-2] * shape[-1],))
+        elif op == 'Unravel':
+            a = rng.choice([d for d in range(1, shape[-1] + 1) if shape[-1] % d == 0]); b = shape[-1] // a
+            X = ev.Unravel(child, ev.constant(a), ev.constant(b)); ref = dense.reshape(tuple(shape[:-1]) + (a, b))
+        elif op == 'Diagonalize':
+            X = ev.Diagonalize(child); ref = numpy.zeros(tuple(shape) + (shape[-1],))
+            for k in range(shape[-1]): ref[..., k, k] = dense[..., k]
+        elif op == 'Transpose':
+            axes = list(range(nd)); rng.shuffle(axes)
+            if axes == list(range(nd)):
+                if nd < 2: continue
+                axes = axes[1:] + axes[:1]
+            X = ev.Transpose(child, tuple(axes)); ref = dense.transpose(axes)
+        elif op == 'InsertAxis':
+            k = rng.choice([0, 1, 2, 3]); X = ev.InsertAxis(child, ev.constant(k)); ref = numpy.repeat(dense[..., None], k, -1)
+        elif op == 'Inflate':
+            N = rng.choice([1, 2, 3, 5]); dm = [rng.randrange(N) for _ in range(shape[-1])]
+            X = ev.Inflate(child, ev.Constant(types.arraydata(numpy.array(dm, dtype=int))), ev.constant(N))
+            ref = numpy.zeros(tuple(shape[:-1]) + (N,))
+            for k, d in enumerate(dm): ref[..., d] += dense[..., k]
+        elif op == 'Inflate2':
+            N = rng.choice([1, 2, 4, 7]); dm = numpy.array([[rng.randrange(N) for _ in range(shape[-1])] for _ in range(shape[-2])], dtype=int)
+            X = ev.Inflate(child, ev.Constant(types.arraydata(dm)), ev.constant(N))
+            ref = numpy.zeros(tuple(shape[:-2]) + (N,))
+            for k1 in range(shape[-2]):
+                for k2 in range(shape[-1]): ref[..., dm[k1, k2]] += dense[..., k1, k2]
+        elif op == 'Sum':
+            X = ev.Sum(child); ref = dense.sum(-1)
+        elif op == 'Add':
+            _, t2, v2 = gen_entries(rng); t2 = [[rng.randrange(k) for k in shape] for _ in v2]
+            flat2 = [int(numpy.ravel_multi_index(t, shape)) for t in t2]
+            e2 = ev.Inflate(ev.Argument('w', (ev.constant(len(v2)),), float), ev.Constant(types.arraydata(numpy.array(flat2, dtype=int))), ev.constant(int(numpy.prod(shape))))
+            for k in range(nd - 1):
+                e2 = ev.Unravel(e2, ev.constant(shape[k]), ev.constant(int(numpy.prod(shape[k+1:]))))
+            args['w'] = numpy.array(v2, dtype=float)
+            X = ev.Add(types.frozenmultiset([child, e2])); ref = dense + py_dense(shape, t2, v2)
+        elif op == 'Multiply3':   # three clusters on pairwise disjoint axes
+            def vec(name):
+                m = rng.choice([1, 2, 3]); k2 = rng.choice([1, 2, 4])
+                t2 = [rng.randrange(m) for _ in range(k2)]; v2 = [rng.choice([1, -1, 2, 3]) for _ in range(k2)]
+                args[name] = numpy.array(v2, dtype=float)
+                return ev.Inflate(ev.Argument(name, (ev.constant(k2),), float), ev.Constant(types.arraydata(numpy.array(t2, dtype=int))), ev.constant(m)), py_dense([m], [[t] for t in t2], v2).astype(float), m
+            B, dB, m = vec('w'); C, dC, q = vec('z')
+            S = tuple(ev.constant(k) for k in shape)
+            left = ev.appendaxes(child, (ev.constant(m), ev.constant(q)))
+            mid = ev.prependaxes(ev.appendaxes(B, (ev.constant(q),)), S)
+            right = ev.prependaxes(C, S + (ev.constant(m),))
+            order = rng.choice([0, 1, 2])
+            fs = [left, mid, right]; fs = fs[order:] + fs[:order]
+            X = ev.Multiply(types.frozenmultiset([ev.Multiply(types.frozenmultiset(fs[:2])), fs[2]]))
+            ref = dense[..., None, None] * dB[:, None] * dC
+        else:   # Multiply: outer product of two sparse vectors/arrays on disjoint axes (cluster product)
+            m = rng.choice([1, 2, 3]); k2 = rng.choice([0, 1, 2, 4])
+            t2 = [rng.randrange(m) for _ in range(k2)]; v2 = [rng.choice([1, -1, 2, 3]) for _ in range(k2)]
+            c2 = ev.Inflate(ev.Argument('w', (ev.constant(k2),), float), ev.Constant(types.arraydata(numpy.array(t2, dtype=int))), ev.constant(m))
+            args['w'] = numpy.array(v2, dtype=float)
+            d2 = py_dense([m], [[t] for t in t2], v2).astype(float)
+            left = ev.InsertAxis(child, ev.constant(m))
+            right = c2
+            for k in shape: right = ev.InsertAxis(right, ev.constant(k))
+            right = ev.Transpose(right, tuple(range(1, nd + 1)) + (0,))
+            X = ev.Multiply(types.frozenmultiset([left, right])); ref = dense[..., None] * d2
+        c.count('M:chunks:' + op); c.case(('chunks', op, tuple(shape), tuple(map(tuple, tuples)), tuple(values)), nontrivial=len(values) > 0)
+        replay = dict(op='_assparse:' + op, shape=shape, tuples=tuples, values=values, arguments={k: v.tolist() for k, v in args.items()}, reference=ref.tolist())
+        def run():
+            chunks = X._assparse
+            return ev.eval_once(tuple(tuple(ch) for ch in chunks), arguments=args, _simplify=False, _optimize=False)
+        k, val = X_guarded(run)
+        if k != 'ok':
+            nbad += 1
+            c.failing_input('_assparse-raises:' + op, '%s._assparse on a sparse operand raises %r' % (op, val), replay); continue
+        acc, bad = {}, None
+        for ch in val:
+            *idx, v = [numpy.asarray(a) for a in ch]
+            if any(i.shape != v.shape or i.dtype.kind not in 'iu' for i in idx) or len(idx) != ref.ndim: bad = 'format'; break
+            for pos in itertools.product(*[range(k) for k in v.shape]):
+                t = tuple(int(i[pos]) for i in idx)
+                if any(not 0 <= a < b for a, b in zip(t, ref.shape)): bad = 'range'
+                acc[t] = acc.get(t, 0) + frac(v[pos])
+        if bad is None:
+            for pos in itertools.product(*[range(k) for k in ref.shape]):
+                if acc.get(pos, 0) != frac(ref[pos]): bad = 'scatter'; break
+        if bad is not None:
+            nbad += 1
+            c.failing_input('_assparse-chunk-wrong:%s:%s' % (op, bad), 'the chunks of %s._assparse do not accumulate to %s of the dense operand (clause %s)' % (op, op, bad),
+                            dict(replay, chunks=[[numpy.asarray(a).tolist() for a in ch] for ch in val])); continue
+        c.traces += 1
+    c.obligation('corr:_assparse-overrides(chunks_denote)', nbad == 0, 'correspondence', '%d real chunk lists accumulated exactly' % n)
+
+
+def X_guarded(fn):
+    return X.guarded(fn, 20)
+
+
+def m_selftest(c, n):
+    """negative tests: structured corruptions of valid data must be rejected, with the same clause, by the certified Lean checker
+    and by the Python recomputation oracle (guards against a vacuous checker / oracle)"""
+    reqs, meta = [], []
+    for _ in range(n):
+        shape, tuples, values = gen_entries(c.rng)
+        mt, mv = py_merge(shape, tuples, values)
+        dense = py_dense(shape, tuples, values)
+        kind = c.rng.choice(['none', 'swap', 'dup', 'range', 'value', 'drop', 'extra', 'length'])
+        t2, v2 = [list(t) for t in mt], list(mv)
+        expect = 'ok'
+        if kind == 'swap' and len(t2) >= 2:
+            k = c.rng.randrange(len(t2) - 1); t2[k], t2[k+1] = t2[k+1], t2[k]; v2[k], v2[k+1] = v2[k+1], v2[k]; expect = 'fail:order'
+        elif kind == 'dup' and t2:
+            k = c.rng.randrange(len(t2)); t2.insert(k, list(t2[k])); v2.insert(k, 0); expect = 'fail:order'
+        elif kind == 'range' and t2:
+            k = c.rng.randrange(len(t2)); ax = c.rng.randrange(len(shape)); t2[k][ax] = shape[ax] + c.rng.randint(0, 1); expect = 'fail:range'
+        elif kind == 'value' and t2:
+            k = c.rng.randrange(len(t2)); v2[k] += c.rng.choice([1, -1, 2]); expect = 'fail:scatter'
+        elif kind == 'drop' and any(v != 0 for v in v2):
+            k = c.rng.choice([i for i, v in enumerate(v2) if v != 0]); del t2[k]; del v2[k]; expect = 'fail:scatter'
+        elif kind == 'extra':
+            free = [list(p) for p in itertools.product(*[range(s) for s in shape]) if list(p) not in t2]
+            if free:
+                p = c.rng.choice(free); pos = sum(1 for t in t2 if t < p); t2.insert(pos, p); v2.insert(pos, 3); expect = 'fail:scatter'
+        elif kind == 'length' and t2:
+            v2.append(1); expect = 'fail:length'
+        reqs.append('coo|%s|%s|%s|%s' % (ints(shape), lists(t2), ints(v2), ints(dense.reshape(-1))))
+        meta.append(('coo', kind, expect, shape, t2, v2, dense))
+        if len(shape) == 2:
+            rp = [sum(1 for t in mt if t[0] < i) for i in range(shape[0]+1)]; ci = [t[1] for t in mt]; v3 = list(mv)
+            kind = c.rng.choice(['none', 'rp-first', 'rp-last', 'rp-mono', 'col-range', 'col-order', 'value', 'rp-length', 'shift'])
+            expect = 'ok'
+            if kind == 'rp-first': rp[0] = 1; expect = 'fail:rowptr-first'
+            elif kind == 'rp-last': rp[-1] += 1; expect = 'fail:rowptr-last' if len(rp) > 1 else 'fail:rowptr-first'
+            elif kind == 'rp-mono' and len(rp) >= 3 and rp[-1] >= 1:
+                k = c.rng.randrange(1, len(rp)-1); rp[k] = rp[-1] + 1; expect = 'fail:rowptr-monotone'
+            elif kind == 'col-range' and ci:
+                ci[c.rng.randrange(len(ci))] = shape[1]; expect = 'fail:colidx-range'
+            elif kind == 'col-order':
+                rows = [i for i in range(shape[0]) if rp[i+1] - rp[i] >= 2]
+                if rows:
+                    i = c.rng.choice(rows); ci[rp[i]], ci[rp[i]+1] = ci[rp[i]+1], ci[rp[i]]; v3[rp[i]], v3[rp[i]+1] = v3[rp[i]+1], v3[rp[i]]; expect = 'fail:colidx-order'
+            elif kind == 'value' and v3:
+                v3[c.rng.randrange(len(v3))] += 1; expect = 'fail:scatter'
+            elif kind == 'rp-length':
+                rp.append(rp[-1]); expect = 'fail:rowptr-length'
+            elif kind == 'shift' and len(rp) >= 3:
+                # move one entry to the neighbouring row: structure stays valid, meaning changes
+                ks = [k for k in range(1, len(rp)-1) if rp[k] < rp[k+1] and (rp[k] + 1 == rp[k+1] or True)]
+                ks = [k for k in ks if v3[rp[k]] != 0 and (rp[k] == rp[k-1] or ci[rp[k]-1] < ci[rp[k]])]
+                if ks:
+                    k = c.rng.choice(ks); rp[k] += 1; expect = 'fail:scatter'
+            reqs.append('csr|%d|%d|%s|%s|%s|%s' % (shape[0], shape[1], ints(rp), ints(ci), ints(v3), ints(dense.reshape(-1))))
+            meta.append(('csr', kind, expect, shape, (rp, ci), v3, dense))
+    ans = yield reqs
+    nbad = 0
+    for (form, kind, expect, shape, idx, vals, dense), a in zip(meta, ans):
+        if form == 'coo':
+            py = py_check_coo(numpy.array(vals, dtype=float), [numpy.array([t[k] for t in idx], dtype=int) for k in range(len(shape))], shape, dense)
+        else:
+            py = py_check_csr(numpy.array(vals, dtype=float), numpy.array(idx[0], dtype=int), numpy.array(idx[1], dtype=int), shape[1], dense)
+        py = 'ok' if py is None else 'fail:' + py
+        c.count('M:selftest:%s:%s' % (form, expect)); c.case(('selftest', form, kind, tuple(shape), repr(idx), tuple(vals)), nontrivial=expect != 'ok')
+        if a != expect or py != expect:
+            nbad += 1
+            c.broken_no_input('selftest:checkers', 'the certified Lean checker (%s) or the Python oracle (%s) does not give the expected verdict %s on %s data corrupted by %s' % (a, py, expect, form, kind),
+                              dict(form=form, kind=kind, shape=shape, indices=idx, values=vals, dense=dense.tolist(), lean=a, python=py, expect=expect))
+    c.obligation('selftest:checkers-reject-corrupted-data', nbad == 0, 'correspondence', '%d verdicts (valid data accepted, each clause violated in turn)' % len(meta))
+
+
+def m_function(c, n):
+    """function.as_coo / as_csr through function.eval on small FEM integrals, and the consumers matrix.assemble_csr,
+    solver.System (block jacobian) and Topology.project; dense reference = dense evaluation of the same integral"""
+    import treelog
+    from nutils import mesh, function, matrix, solver
+    TOL = 1e-10
+    nbad = 0
+    def close(a, b):
+        a, b = numpy.asarray(a, dtype=float), numpy.asarray(b, dtype=float)
+        return a.shape == b.shape and (a.size == 0 or abs(a - b).max() <= TOL * max(1., abs(a).max(), abs(b).max()))
+    yield []
+    with treelog.set(treelog.NullLog()), matrix.backend('numpy'):
+        for _ in range(n):
+            rng = c.rng
+            kind = rng.choice(['rect1', 'rect2', 'rect2', 'tri'])
+            if kind == 'rect1':
+                domain, geom = mesh.rectilinear([numpy.linspace(0, 1, rng.choice([2, 3, 5]))])
+            elif kind == 'rect2':
+                domain, geom = mesh.rectilinear([numpy.linspace(0, 1, rng.choice([2, 3, 4])), numpy.linspace(0, 2, rng.choice([2, 3]))])
+            else:
+                domain, geom = mesh.unitsquare(rng.choice([1, 2]), 'triangle')
+            btype = rng.choice(['std', 'std', 'spline', 'discont']) if kind != 'tri' else rng.choice(['std', 'discont'])
+            degree = rng.choice([1, 2]) if btype != 'discont' else rng.choice([0, 1])
+            basis = domain.basis(btype, degree=degree)
+            basis2 = domain.basis('discont', degree=0)
+            J = function.J(geom)
+            x0 = geom[0]
+            form = rng.choice(['mass', 'mass', 'stiff', 'load', 'scalar', 'rect', 'tensor3', 'boundary-mass', 'weighted'])
+            if form == 'mass': f = domain.integral(basis[:, None] * basis * J, degree=2*degree)
+            elif form == 'stiff': f = domain.integral((function.grad(basis, geom)[:, None] * function.grad(basis, geom)).sum(-1) * J, degree=2*degree)
+            elif form == 'load': f = domain.integral(basis * (1 + x0) * J, degree=degree + 1)
+            elif form == 'scalar': f = domain.integral((1 + x0) * J, degree=1)
+            elif form == 'rect': f = domain.integral(basis[:, None] * basis2 * J, degree=degree)
+            elif form == 'tensor3': f = domain.integral(basis[:, None, None] * basis2[None, :, None] * basis2[None, None, :] * J, degree=degree)
+            elif form == 'boundary-mass': f = domain.boundary.integral(basis[:, None] * basis * function.J(geom), degree=2*degree)
+            else: f = domain.integral(basis[:, None] * basis * function.field('w', basis2) * J, degree=2*degree)
+            args = {'w': numpy.array([rng.randint(-4, 4) / 2. for _ in range(len(basis2))])} if form == 'weighted' else {}
+            tag = '%s:%s%d:%s' % (kind, btype, degree, form)
+            c.count('M:function:' + form); c.count('M:function:mesh:' + kind); c.count('M:function:basis:%s%d' % (btype, degree))
+            replay = dict(op='function.as_coo/as_csr', mesh=kind, basis=btype, degree=degree, form=form, arguments={k: v.tolist() for k, v in args.items()})
+            try:
+                dense, = function.eval([f], args)
+            except Exception as e:
+                c.count('M:function:dense-eval-raises:' + type(e).__name__); continue
+            c.case(('function', tag, len(basis)), nontrivial=f.ndim > 0)
+            try:
+                coo = function.eval(function.as_coo(f), args)
+                v = py_check_coo(coo[0], coo[1:], f.shape, dense, TOL)
+            except Exception as e:
+                v = 'raises %s: %s' % (type(e).__name__, str(e)[:100]); coo = ()
+            if v is not None:
+                nbad += 1
+                c.failing_input('function.as_coo-wrong:' + v.split(':')[0].split(' ')[0], 'function.as_coo evaluated through function.eval does not denote the dense integral (%s; %s)' % (v, tag),
+                                dict(replay, clause=v, coo=[numpy.asarray(a).tolist() for a in coo], dense=dense.tolist())); continue
+            c.traces += 1
+            if f.ndim == 2:
+                try:
+                    csr = function.eval(function.as_csr(f), args)
+                    v = py_check_csr(csr[0], csr[1], csr[2], f.shape[1], dense, TOL)
+                except Exception as e:
+                    v = 'raises %s: %s' % (type(e).__name__, str(e)[:100]); csr = ()
+                if v is not None:
+                    nbad += 1
+                    c.failing_input('function.as_csr-wrong:' + v.split(':')[0].split(' ')[0], 'function.as_csr evaluated through function.eval does not denote the dense integral (%s; %s)' % (v, tag),
+                                    dict(replay, clause=v, csr=[numpy.asarray(a).tolist() for a in csr], dense=dense.tolist())); continue
+                try:
+                    A = matrix.assemble_csr(*csr, f.shape[1]).export('dense')
+                    okA = close(A, dense)
+                except Exception as e:
+                    okA, A = False, numpy.array(float('nan'))
+                    replay['consumer_exception'] = '%s: %s' % (type(e).__name__, e)
+                c.count('M:function:consumer:assemble_csr')
+                if not okA:
+                    nbad += 1
+                    c.failing_input('consumer-assemble_csr-wrong', 'matrix.assemble_csr of the evaluated function.as_csr data does not export the dense integral (%s)' % tag,
+                                    dict(replay, matrix=numpy.asarray(A).tolist(), dense=dense.tolist())); continue
+            # consumers: solver.System block jacobian, Topology.project
+            if form in ('mass', 'stiff') and rng.random() < .5:
+                u = function.field('u', basis); p = function.field('p', basis2)
+                gu = function.grad(u, geom)
+                F = domain.integral((u**2 * (1 + x0) + u * p + 3 * p**2 + (gu**2).sum(-1) + (u**3 if rng.random() < .5 else 0)) * J, degree=3*max(degree, 1))
+                trial = rng.choice(['u,p', 'p,u', 'u'])
+                a2 = {'u': numpy.array([rng.randint(-4, 4) / 4. for _ in range(len(basis))]), 'p': numpy.array([rng.randint(-4, 4) / 2. for _ in range(len(basis2))])}
+                try:
+                    jac = solver.System(F, trial=trial).assemble_jacobian(a2).export('dense')
+                    names = trial.split(',')
+                    H = numpy.block([[function.eval([function.derivative(function.derivative(F, a), b)], a2)[0] for b in names] for a in names])
+                    ok = close(jac, H)
+                except Exception as e:
+                    ok, jac, H = False, numpy.zeros(0), numpy.zeros(0); replay['consumer_exception'] = '%s: %s' % (type(e).__name__, e)
+                c.count('M:function:consumer:System-jacobian:' + trial)
+                if not ok:
+                    nbad += 1
+                    c.failing_input('consumer-System-jacobian-wrong', 'solver.System block jacobian (as_csr of each block, assemble_block_csr) differs from the dense second derivative (%s, trial=%s)' % (tag, trial),
+                                    dict(replay, trial=trial, arguments=dict((k, v.tolist()) for k, v in a2.items()), jacobian=jac.tolist(), dense=H.tolist())); continue
+            if form == 'mass' and btype != 'discont' and rng.random() < .5:
+                try:
+                    xp = domain.project(1 + x0, onto=basis, geometry=geom, degree=2*degree)
+                    b, = function.eval([domain.integral(basis * (1 + x0) * J, degree=2*degree)])
+                    ok = close(xp, numpy.linalg.solve(dense, b))
+                except Exception as e:
+                    ok = False; replay['consumer_exception'] = '%s: %s' % (type(e).__name__, e)
+                c.count('M:function:consumer:project')
+                if not ok:
+                    nbad += 1
+                    c.failing_input('consumer-project-wrong', 'Topology.project (function.as_csr -> assemble_csr -> solve) differs from the dense least squares solution (%s)' % tag, replay); continue
+    c.obligation('corr:function.as_coo/as_csr+consumers', nbad == 0, 'correspondence', '%d FEM integrals evaluated sparse and dense' % n)
+
+
+def run_batched(c, streams):
+    """every stream is a generator that yields its Lean requests once and receives the answers: one driver process for all"""
+    reqs = [next(g) for g in streams]
+    c.log('generated %s requests' % [len(r) for r in reqs])
+    flat = [r for rs in reqs for r in rs]
+    ans = c.model(flat)
+    c.log('Lean driver answered %d requests' % len(ans))
+    pos = 0
+    for g, rs in zip(streams, reqs):
+        try:
+            g.send(ans[pos:pos+len(rs)])
+        except StopIteration:
+            pass
+        else:
+            raise Infra('stream did not finish after receiving its answers')
+        pos += len(rs)
+
+
 def run(c):
     c.rule = ('random well-typed evaluable DAGs (nvh.genexpr; 75% restricted to the classes with their own _assparse, float and int, ndim 0..3, axis lengths 0..3, nested '
               'loops) and FEM-like element loops with element-dependent block sizes (LoopSum of Inflate of outer products, LoopConcatenate of variable chunks); '
@@ -389,8 +921,39 @@ def run(c):
     c.assumptions += ['complex dtype is not generated', 'integer arguments, axis lengths, loop lengths are sampled; real arguments are symbolic in the Lean evaluation',
                       'equal polynomial normal forms => equal values for all real arguments (Props/Poly); the Lean evaluator and checkers are executed, the checkers are proved sound (Props/C05)',
                       'a symbolic failure is never a verdict by itself: fall back to the exact sample point, then to the real evaluation + exact recomputation']
-    broken = c.build_and_audit()
+    if getattr(c, 'replay', None) and 'pickled' in c.replay:
+        # replay of a recorded failing expression: real extraction + real evaluation + exact oracle only
+        e, args = pickle.loads(base64.b64decode(c.replay['pickled']))
+        mode = c.replay.get('mode', 'coo')
+        tol = 0. if is_exact(e) else 1e-9
+        kx, ext = extract(e, mode)
+        c.case((e.__nutils_hash__, mode))
+        if kx != 'ok':
+            c.failing_input(c.replay.get('signature', 'replay'), 'replay: sparse extraction raises %r' % ext, dict(c.replay)); return
+        kr, parts = real_parts(mode, ext, args)
+        verdict = py_verdict(mode, parts, tol) if kr == 'ok' and finite(parts) else 'evaluation: %s %r' % (kr, parts)
+        c.log('replay verdict:', verdict or 'ok')
+        c.obligation('replay', verdict is None, 'correspondence', str(verdict))
+        if verdict is not None:
+            c.failing_input(c.replay.get('signature', 'replay'), 'replay: clause %s fails' % verdict, dict(c.replay))
+        return
+    if os.environ.get('C05_DEV_NOAUDIT'):
+        # development aid for mutation screening only: skips the proof build/audit and says so in the evidence
+        broken = []; c.assumptions.append('DEV MODE: proofs not rebuilt / audited in this run'); c.obligation('dev-mode-no-audit', True, 'correspondence', 'not a verification run')
+    elif c.tier == 'quick':
+        # Props/C05Eval.lean (the only Mathlib-dependent theorem, checkCOO_sound_eval) is rebuilt in every run; its axiom audit,
+        # which has to load Mathlib, is done in the thorough tier
+        broken = c.build_and_audit()
+        ok, out = c.build(['NutilsVerif.Props.C05Eval'])
+        c.obligation('NutilsVerif.C05.checkCOO_sound_eval', ok, 'theorem', 'lake build NutilsVerif.Props.C05Eval (axiom audit in the thorough tier)')
+        if not ok: broken.append('lake build NutilsVerif.Props.C05Eval failed')
+    else:
+        broken = c.build_and_audit(extra_props=['C05Eval'])
+    c.log('proofs built and audited')
     quick = c.tier == 'quick'
-    v_stream(c, 60 if quick else 1500, 4 if quick else 5)
+    streams = [m_compress(c, 300 if quick else 20000), m_accumulate(c, 100 if quick else 3000), m_unique(c, 60 if quick else 2000),
+               m_assparse(c, 60 if quick else 2000), m_chunks(c, 150 if quick else 3000), m_selftest(c, 80 if quick else 3000), m_function(c, 25 if quick else 300),
+               v_stream(c, 60 if quick else 1000, 4 if quick else 5, 240 if quick else 4000)]
+    run_batched(c, streams)
     for b in broken:
         c.broken_no_input('proof', b, dict(detail=b))
